@@ -94,12 +94,25 @@ type cmdIter struct{ commands.Iter }
 
 func (r cmdIter) ItemID() string { return strings.SplitN(r.Command().JID.Domainpart(), ".", 2)[0] }
 
-type histIter struct{ *history.Iter }
+type histIter struct {
+	*history.Iter
+	id   string
+	read bool
+}
 
-// ItemID reads exactly the two tokens the handler read itself before it handed the message
-// over (the message and the result start elements); anything further would read from the
+func (r *histIter) Next() bool {
+	r.id, r.read = "", false
+	return r.Iter.Next()
+}
+
+// ItemID reads (once per item) exactly the two tokens the handler read itself before it handed the
+// message over (the message and the result start elements); anything further would read from the
 // serve loop's reader while the serve loop goes on.
-func (r histIter) ItemID() string {
+func (r *histIter) ItemID() string {
+	if r.read {
+		return r.id
+	}
+	r.read = true
 	c := r.Current()
 	if c == nil {
 		return ""
@@ -112,9 +125,9 @@ func (r histIter) ItemID() string {
 		return ""
 	}
 	if st, ok := tok.(xml.StartElement); ok {
-		return attrOf(&st, "id")
+		r.id = attrOf(&st, "id")
 	}
-	return ""
+	return r.id
 }
 
 // fetcher starts (the next page of) an iteration; cursor is what the previous page's iterator
@@ -169,10 +182,10 @@ func (f *fetcher) fetch(ctx context.Context) (it iterator) {
 		return cmdIter{commands.Fetch(ctx, peerJID, f.sess)}
 	case "history":
 		q := history.Query{ID: fmt.Sprintf("q%d", f.npage), Limit: pageMax}
-		if p, ok := f.prev.(histIter); ok {
+		if p, ok := f.prev.(*histIter); ok {
 			q.PageID = p.Result().Set.Last
 		}
-		return histIter{f.hist.Fetch(ctx, q, peerJID, f.sess)}
+		return &histIter{Iter: f.hist.Fetch(ctx, q, peerJID, f.sess)}
 	}
 	panic("helper " + f.helper)
 }
@@ -184,7 +197,7 @@ func nextCursor(it iterator) string {
 		if np := x.NextPage(); np != nil {
 			return np.After
 		}
-	case histIter:
+	case *histIter:
 		if res := x.Result(); !res.Complete {
 			return res.Set.Last
 		}
@@ -391,13 +404,12 @@ func renderCommand(variant string, r Reply, wireID string) (string, bool) {
 			return iq("result", cmd("urn:vt:other")), false
 		}
 		return iq("result", "<query xmlns='"+nsQ+"'/>"), false
-	case "broken":
-		full := iq("result", cmd(nsCmd))
-		cut := strings.Index(full, "<actions")
+	case "broken": // the stream breaks before the command element is complete
+		head := fmt.Sprintf("<iq type='result' id='%s' from='example.net'>", wireID)
 		if variant == "cut" {
-			return full[:cut], true
+			return head + "<command xmlns='" + nsCmd + "' node='n1", true
 		}
-		return full[:cut] + "</wrong>", false
+		return head + "</wrong>", false
 	case "silence":
 		return "", false
 	case "eos":
